@@ -1007,6 +1007,11 @@ def stream_init(repo, run, rule):
         r = ev.call(fi, me, b)
     except Unsupported as e:
         raise AnalysisError('StreamNode.__init__: finite-domain evaluator refused: %s' % e)
+    prop = repo.classes['StreamNode'].methods.get('stages')
+    if prop is not None:
+        r2 = _fde(repo).call(prop, Obj('stream2', 'StreamNode', builder=b))
+        if r2.raised or r2.ret is not stages:
+            run.violation(rule, prop, 'StreamNode.stages', 'the stages of a stream are %r, expected the stages of its builder (the documents spliced into the parent by preprocess)' % (r2.raised or r2.ret,))
     if r.raised or len(got) != 1 or not got[0][0] or got[0][0][0] is not stages or me.f.get('builder') is not b:
         run.violation(rule, fi, 'StreamNode.__init__', 'the carrier is not constructed from the sub-builder\'s stages / does not keep the builder (base constructor calls: %d, builder kept: %s%s)' % (
             len(got), me.f.get('builder') is b, ', raises %s' % r.raised if r.raised else ''))
@@ -1853,3 +1858,116 @@ def current_file_tracking(repo, run, rule):
         run.violation(rule, fi, 'current file / current stage', '; '.join(sorted(bad)))
     else:
         run.ok(rule, fi, 'an opened source file is recorded before parsing (%d paths); current_stage sets and restores its mark' % n)
+
+
+def delegation_argument_order(repo, run, rule, names=('on_evaluate_impl', 'on_premerge_impl', 'on_preprocess_impl', 'on_merge_impl', 'on_evaluate', 'on_premerge', 'on_preprocess', 'on_merge')):
+    """a node method that hands its own (path, <operand>) pair on to the next layer (super(), the result of a sub-build, a child) hands
+    it on in the same order"""
+    n = 0
+    bad = []
+    for fi in repo.all_functions(include_nested=False):
+        if fi.name not in names or fi.cls is None:
+            continue
+        ps = fi.params()[1:]
+        if len(ps) != 2:
+            continue
+        for c in calls_in_(fi.node):
+            if isinstance(c.func, ast.Attribute) and c.func.attr in names and len(c.args) == 2 and not c.keywords:
+                a = [norm(x) for x in c.args]
+                if sorted(a) == sorted(ps):
+                    n += 1
+                    if a != ps:
+                        bad.append((fi, c, a))
+    if n < 4:
+        raise AnalysisError('delegation of (path, operand) pairs: only %d sites found' % n)
+    if bad:
+        fi, c, a = bad[0]
+        run.violation(rule, fi, norm(c)[:80], 'the (%s) pair is handed on as (%s): the next layer takes the operand for the path and the path for the operand' % (', '.join(fi.params()[1:]), ', '.join(a)), node=c)
+    else:
+        run.ok(rule, repo.func('ConfigNode.ayns.on_merge'), '%d delegations hand (path, operand) on in order' % n)
+
+
+def calls_in_(node):
+    from ..srcmodel import calls_in
+    return calls_in(node)
+
+
+def partial_child_getitem(repo, run, rule):
+    """EvalContext.PartialChild.__getitem__ evaluated: an entry that is not there yet is evaluated from the config node of that key,
+    under the path of the parent extended by the key, and is the result; an entry that is there is returned as stored - after the
+    strict-mode re-check of its source when the context requires all safe"""
+    q = 'EvalContext.PartialChild.__getitem__'
+    if q not in repo.functions:
+        raise AnalysisError('%s not found' % q)
+    fi = repo.func(q)
+    bad = []
+    for present in (False, True):
+        for strict in (False, True):
+            log = []
+            child_node = node_obj('cfg.k', 'ConfigNode')
+            ctx = Obj('ctx', 'EvalContext', _require_all_safe=strict)
+
+            def stub(name, recv, a, k, log=log):
+                log.append((name, getattr(recv, 'name', None), tuple(getattr(x, 'name', x) if not isinstance(x, list) else tuple(x) for x in a)))
+                if name == 'evaluate_node':
+                    return 'EVALUATED'
+                if name == '__getitem__':
+                    return 'STORED'
+                return None
+            ev = _fde(repo, stubs={'evaluate_node', 'get_node', '__getitem__'}, stub=stub)
+            me = Obj('pc', 'EvalContext.PartialChild', _path=['a'], _eval_ctx=ctx, _cfgobj={'k': child_node}, _fde_keys=({'k'} if present else set()))
+            try:
+                r = ev.call(fi, me, 'k')
+            except Unsupported as e:
+                raise AnalysisError('%s: finite-domain evaluator refused: %s' % (q, e))
+            what = 'entry %s, strict mode %s' % ('present' if present else 'absent', 'on' if strict else 'off')
+            evs = [x for x in log if x[0] == 'evaluate_node']
+            gets = [x for x in log if x[0] == 'get_node']
+            if r.raised:
+                bad.append('%s: raises %s' % (what, r.raised))
+            elif not present:
+                if evs != [('evaluate_node', 'ctx', ('cfg.k', ('a', 'k')))] or r.ret != 'EVALUATED':
+                    bad.append('%s: expected ctx.evaluate_node(<config node of the key>, <parent path> + [key]) as the result, got calls %s, result %r' % (what, evs, r.ret))
+            else:
+                if evs or r.ret != 'STORED':
+                    bad.append('%s: expected the stored value, got %r (evaluations: %s)' % (what, r.ret, evs))
+                if strict and gets != [('get_node', 'ctx', (('a', 'k'),))]:
+                    bad.append('%s: the source of the stored value is not re-checked (get_node calls: %s)' % (what, gets))
+    if bad:
+        run.violation(rule, fi, 'PartialChild.__getitem__', '; '.join(bad[:2]))
+    else:
+        run.ok(rule, fi, 'PartialChild.__getitem__ evaluated on 4 rows', 'absent -> evaluate_node(cfg[key], path + [key]); present -> stored value, re-checked in strict mode')
+
+
+def strict_block_errors(repo, run, rule):
+    """EvalContext.require_all_safe on traces: strict mode is switched on for the block and the previous mode put back on every way
+    out; an UnsafeError raised inside the block is never swallowed - it leaves the block as an error that names the requiring node,
+    with the UnsafeError as cause"""
+    fi = repo.func('EvalContext.require_all_safe')
+    probs = set()
+    n = 0
+    for p in tr.paths_of(repo, fi, follow_exceptions=True):
+        ys = [i for i, e in enumerate(p.events) if e.kind == 'yield' or e.kind == 'exc']
+        sets = [(i, e) for i, e in enumerate(p.events) if e.kind == 'store' and e.target == 'self._require_all_safe']
+        if not sets:
+            continue
+        first = sets[0][1]
+        if first.value is None or first.value.const is not True:
+            probs.add('strict mode is not switched on for the block')
+        last = sets[-1][1]
+        if len(sets) < 2 or last.value is None or 'self._require_all_safe' not in last.value.text:
+            probs.add('the previous mode is not put back on a way out of the block [%s]' % tr.describe(p, 2))
+        exc = [t for t, pol in p.facts if pol and t.startswith('exception:') and 'UnsafeError' in t]
+        if exc:
+            n += 1
+            fin = [e for e in p.events if e.kind == 'raise']
+            if p.status != 'raise' or not fin:
+                probs.add('an UnsafeError raised inside the block is swallowed: the dynamic node goes on as if its dependency had been safe')
+            elif fin[-1].value.text != '<reraise>' and fin[-1].target != 'caught_exception':
+                probs.add('the error that leaves the block does not carry the UnsafeError as its cause')
+    if not n:
+        raise AnalysisError('EvalContext.require_all_safe: no handler for UnsafeError found on the traces')
+    if probs:
+        run.violation(rule, fi, 'EvalContext.require_all_safe', '; '.join(sorted(probs)))
+    else:
+        run.ok(rule, fi, 'strict block: mode on / restored; UnsafeError -> EvalError(..., node, path) from e')
